@@ -181,6 +181,9 @@ def handle : List String → Verdict
       let want := markerFlags (Bytes.ofString "{{ v }}") script
       let got := if flagsS == "-" then [] else flagsS.toList.map (· == '1')
       let feats := scriptFeatures (Bytes.ofString "{{ v }}") script
+      -- a backslash outside every literal and comment, or a line break inside a '…' / "…" literal: the generated text is not JavaScript, so "inside a string literal"
+      -- has no meaning a browser would act on (outside the property's quantifier)
+      if feats.contains "stray-backslash" || feats.contains "broken-string" then { skipped := true, tags := ["quote-not-javascript"] } else
       { predfail := if want == got then none else
           some s!"parser's in-string-literal flags {got} differ from the JS lexer's {want} (constructs in the script: {feats})",
         nontrivial := want.any id, tags := ["quote"] ++ feats.map ("quote:" ++ ·),
